@@ -505,6 +505,49 @@ theorem cutFrom_isliceX (start stop step : Nat) (hstep : 0 < step) :
         rw [e, ih (cnt + 1) (min (cnt + step) stop) (by omega)]
         simp only [List.length_cons]; omega
 
+/-- the pull counters are those on the source cut at the exit point -/
+theorem StopStage.reqReads_trunc (X : StopStage ι ο σ) (xs : List ι) (k : Nat) :
+    X.reqReads (xs.take (X.cut xs)) k = X.reqReads xs k := by
+  cases k with
+  | zero =>
+    unfold StopStage.reqReads needD Stage.need
+    simp [needFrom_zero]
+  | succ k =>
+    have h1 := StopStage.probe_closed X xs (k + 1) k (Nat.lt_succ_self k)
+    have h2 := StopStage.probe_closed X (xs.take (X.cut xs)) (k + 1) k (Nat.lt_succ_self k)
+    have ht : X.probe (xs.take (X.cut xs)) (k + 1) = X.probe xs (k + 1) :=
+      StopStage.probeFrom_trunc X (k + 1) X.base.start xs
+    rw [ht, h1] at h2
+    simp only [Option.some.injEq, Prod.mk.injEq] at h2
+    exact h2.2.symm
+
+/-- **`islice(seq, start, stop, step)`** (CPython `islice_next`): `k` requests read
+    `needIsliceStop` items — output `k` is item `start + (k-1)*step`; once drained `max start stop`
+    items have been read (also when `start > stop`), never more. -/
+theorem reqReads_isliceX (start stop step : Nat) (hstep : 0 < step) (xs : List α) (k : Nat) :
+    (isliceX start stop step).reqReads xs k = min (needIsliceStop start stop step k) xs.length := by
+  have hcut : ∀ l : List α, (isliceX start stop step).cut l = min (max start stop) l.length := by
+    intro l
+    have := cutFrom_isliceX (α := α) start stop step hstep l 0 start (Nat.zero_le _)
+    simp only [Nat.sub_zero] at this
+    exact this
+  rw [← StopStage.reqReads_trunc, hcut xs]
+  generalize hl : xs.take (min (max start stop) xs.length) = l
+  have hlen : l.length = min (max start stop) xs.length := by
+    rw [← hl, List.length_take]; omega
+  unfold StopStage.reqReads
+  rw [hcut l]
+  unfold needD
+  rw [exactNeed_isliceX start stop step hstep l (by show l.length ≤ max start stop; omega) k]
+  unfold needIsliceStop
+  by_cases hk : k = 0
+  · subst hk; simp
+  · simp only [if_neg hk]
+    generalize (k - 1) * step = P
+    split
+    · simp only [Option.getD_some]; omega
+    · simp only [Option.getD_none]; omega
+
 /-! ### chains -/
 
 theorem cutFrom_never (S : Stage ι ο σ) : ∀ (xs : List ι) (s : σ),
